@@ -112,6 +112,20 @@ pub struct CheckCtx {
 /// Result of running one case.
 pub type CaseOutcome = (CaseInfo, Option<Violation>);
 
+/// Set while a failing case is being shrunk / re-confirmed / replayed. Sub-checks whose executions are not a pure
+/// function of the case (free-running threads) repeat the case many times while it is set, so that a sound
+/// end-state violation that needs a lucky interleaving is reproduced instead of being dismissed as "flaky".
+pub static CONFIRMING: AtomicBool = AtomicBool::new(false);
+
+/// Repetitions for a non-deterministic (free-running) case.
+pub fn free_reps() -> usize {
+    if CONFIRMING.load(Ordering::Relaxed) {
+        60
+    } else {
+        1
+    }
+}
+
 /// Heartbeat of the running check: bumped for every case the collector records.
 pub static HEARTBEAT: AtomicU64 = AtomicU64::new(0);
 /// Set while a phase runs that legitimately records nothing for minutes (the libFuzzer campaign).
@@ -242,7 +256,9 @@ impl CheckCtx {
                 .iter()
                 .find(|k| k.status == "open" && k.property == self.prop && k.replay == rel);
             // replays of open findings are run strictly so that the finding is visible
+            CONFIRMING.store(true, Ordering::Relaxed);
             let out = catch_unwind(AssertUnwindSafe(|| run(&case)));
+            CONFIRMING.store(false, Ordering::Relaxed);
             match out {
                 Err(p) => {
                     self.infra_error(format!(
@@ -434,6 +450,7 @@ impl CheckCtx {
                                             }
                                         }
                                         failed_here.store(true, Ordering::Relaxed);
+                                        CONFIRMING.store(true, Ordering::Relaxed);
                                         stop.store(true, Ordering::Relaxed);
                                         let msg = format!("{}: {}", v.rule, v.detail);
                                         *last_violation.lock().unwrap() = Some(v);
@@ -492,7 +509,10 @@ impl CheckCtx {
             ));
         }
 
-        let (mut minimal, mut v) = found.into_inner().unwrap()?;
+        let Some((mut minimal, mut v)) = found.into_inner().unwrap() else {
+            CONFIRMING.store(false, Ordering::Relaxed);
+            return None;
+        };
         // confirm twice more; a failure that does not reproduce is an infrastructure problem
         let confirm = |c: &T, v: &Violation| -> u32 {
             let mut n = 0;
@@ -518,6 +538,7 @@ impl CheckCtx {
                 }
             }
         }
+        CONFIRMING.store(false, Ordering::Relaxed);
         if confirmed < 2 {
             self.infra_error(format!(
                 "{sub}: failure {} did not reproduce on re-run ({confirmed}/2): {} case {}",
